@@ -25,6 +25,15 @@ import (
 const canary = "vrfcnry"
 
 func c18Payloads() []string {
+	// positions that end at a blank (unquoted attribute values): c18b.go; the whole family in the thorough tier
+	unq := c18UnquotedPayloads()
+	if !verifThorough() {
+		unq = unq[:2]
+	}
+	return append(c18BasePayloads(), unq...)
+}
+
+func c18BasePayloads() []string {
 	return []string{
 		`"><` + canary + ` x=1>`,
 		`'><` + canary + `>`,
@@ -238,6 +247,14 @@ func TestVerif_C18(t *testing.T) {
 		c.Base.AutomationAdmins = []string{"autoadm"}
 		c.OpenIDConnectIDP.Client = append(c.OpenIDConnectIDP.Client, OpenIDConnectClientConfig{ClientID: "app", ClientSecret: "s", AllowedRedirectDomains: []string{"example.com"}})
 	})
+	// as main() does: the process logger is the one whose ring buffer the admin status page shows
+	savedLogger := logger
+	logger = verifC18AdminLogger()
+	env.state.logger = logger
+	defer func() { logger = savedLogger }()
+	admin := c18BuildAdmin(env)
+	c18AdminSweep(res, admin, "start-up", "", "")
+	attrCases := &c18AttrCases{}
 	routes := verifRouteTable()
 	harvest := c18LoadHarvest(t)
 	// every parameter name any handler of the current tree reads (plus a few names no handler reads: a field
@@ -257,6 +274,7 @@ func TestVerif_C18(t *testing.T) {
 		req.AddCookie(creds[2].cookie)
 		env.serve(req)
 	}
+	c18AdminSweep(res, admin, "users with payload names were added", "", "")
 	probe := func(route verifRoute, mode, credName string, cookie *http.Cookie, payload string) {
 		target := route.Path
 		form := url.Values{}
@@ -309,6 +327,32 @@ func TestVerif_C18(t *testing.T) {
 		}
 	}
 	payloads := c18Payloads()
+	// second-order: text of REFUSED requests (user name of a rejected login, form or Basic; unknown path; query
+	// string) that shows up later, on a page of the ADMIN port, for whoever opens it.  A "last N" panel forgets
+	// quickly: the admin pages are fetched right after each payload
+	allPayloads := append(c18BasePayloads(), c18UnquotedPayloads()...)
+	for _, p := range allPayloads {
+		f := url.Values{}
+		f.Set("username", p)
+		f.Set("password", "wrong "+p)
+		rq := verifNewRequest("POST", proto.LoginPath, f)
+		rq.Header.Set("Accept", "text/html")
+		rq.Header.Set("User-Agent", "Mozilla/5.0 Chrome/120 "+p)
+		env.serve(rq)
+		rq = verifNewRequest("GET", proto.LoginPath, nil)
+		rq.SetBasicAuth(p, "wrong")
+		env.serve(rq)
+		rq = verifNewRequest("GET", "/"+url.PathEscape(p)+"?"+url.QueryEscape(p)+"="+url.QueryEscape(p), nil)
+		rq.Header.Set("Accept", "text/html")
+		env.serve(rq)
+		res.bump("refused_requests_with_payload")
+		c18AdminSweep(res, admin, "a rejected login (form and Basic), an unknown path and a query string carrying the payload", "", p)
+	}
+	for pi, p := range allPayloads {
+		if verifThorough() || pi%4 == 0 || pi >= len(c18BasePayloads()) {
+			c18AdminSweep(res, admin, "nothing (the admin request itself is hostile)", p, p)
+		}
+	}
 	for _, route := range routes {
 		if strings.HasPrefix(route.Path, "/static/") || strings.HasPrefix(route.Path, "/custom_static/") {
 			continue
@@ -341,6 +385,7 @@ func TestVerif_C18(t *testing.T) {
 		}
 	}
 
+	c18AdminSweep(res, admin, "the generic sweep of the service port", "", "")
 	// ---- dictionary-driven probes: per route, start from a request that gets as far as the route lets it
 	// today, then (a) replace/add ONE harvested parameter at a time by a payload, for every credential kind,
 	// GET and POST; (b) for the credential kinds on which the base request succeeds, additionally set every
@@ -422,7 +467,7 @@ func TestVerif_C18(t *testing.T) {
 	for _, c := range hcreds {
 		credByName[c.name] = c.cookie
 	}
-	hPayloads := []string{payloads[0], payloads[2], payloads[3], payloads[1], payloads[7], payloads[5]}
+	hPayloads := []string{payloads[0], payloads[2], payloads[3], payloads[1], payloads[7], payloads[5], c18UnquotedPayloads()[0]}
 	if verifThorough() {
 		hPayloads = payloads
 	}
@@ -581,6 +626,11 @@ func TestVerif_C18(t *testing.T) {
 		routeTimes[route.Path] = fmt.Sprintf("%d probes, %d ms", res.counts["harvest_probes"]-probesBefore, time.Since(routeStart).Milliseconds())
 	}
 	res.Extra["harvest_route_cost"] = routeTimes
+	c18AdminSweep(res, admin, "the dictionary-driven probes of the service port", "", "")
+	// ---- nested canaries: destinations that are keymaster URLs with canary parameters, on every variant of the
+	// second-factor page (c18b.go)
+	c18NestedStage(env, res, routes, hv, attrCases, otpFor)
+	c18AdminSweep(res, admin, "the nested-destination logins", "", "")
 	// success paths: a completed login / second factor with a hostile destination (a second state whose
 	// web UI accepts the password alone, so that the login handler answers with the redirect itself)
 	env2 := verifSetup(t, func(c *AppConfigFile, dir string) {
@@ -653,6 +703,7 @@ func TestVerif_C18(t *testing.T) {
 		idx = append(idx, fmt.Sprintf("via=%s dest=%q ensured=%q value=%q", via, destIn, ensured, v))
 		res.eval("input|"+via+"|"+destIn, true)
 		res.bump("hidden_input:" + via)
+		attrCases.collect(res, "hidden-input:"+via, body, ensured, "login_destination_input", "value")
 		if strings.ContainsAny(v, "\"<>'") {
 			res.hit(verifHit{Key: "C18:hidden-input:" + via, Oracle: "attribute value of the hidden INPUT contains a markup byte", What: fmt.Sprintf("destination %q rendered as VALUE=\"%s\"", destIn, v), Case: destIn})
 		}
@@ -778,6 +829,9 @@ func TestVerif_C18(t *testing.T) {
 					continue
 				}
 				field := out[len(cx.pre) : len(out)-len(cx.post)]
+				if cx.code == 1 || cx.code == 2 {
+					attrCases.collect(res, "html/template:"+cx.name, []byte(out), in, "", "value")
+				}
 				bad := "\"'<>"
 				if cx.code == 2 {
 					bad = "\"'<>= \t\n\r\f\v`"
@@ -817,6 +871,8 @@ func TestVerif_C18(t *testing.T) {
 	sb.WriteString("Definition ecases : list (N * bs * bs) := [\n " + strings.Join(ecases, ";\n ") + "].\n")
 	sb.WriteString("Definition ebad (c : N * bs * bs) : bool :=\n  let '(k, s, out) := c in\n  let cx := if k =? 0 then CtxText else if k =? 1 then CtxAttrQuoted else CtxAttrUnquoted in\n  negb (bs_eqb (render_field cx s) out).\n")
 	sb.WriteString("Definition c18_escaper_mismatches := Eval vm_compute in mismatches ebad ecases.\nPrint c18_escaper_mismatches.\nDefinition c18_necases := Eval vm_compute in length ecases.\nPrint c18_necases.\n")
+	sb.WriteString(attrCases.coq())
+	ioutil.WriteFile(filepath.Join(verifOut(), "CasesC18a.idx"), []byte(strings.Join(attrCases.idx, "\n")), 0644)
 	if err := ioutil.WriteFile(filepath.Join(verifOut(), "CasesC18.v"), []byte(sb.String()), 0644); err != nil {
 		t.Fatal(err)
 	}
